@@ -398,6 +398,29 @@ def run(ctx: Context) -> None:
                             ok = True
                 ctx.check('R01.2', ok, "grid_size[kind] = prod(grid_shape[kind])", fi, r, construct=f"grid_size = {norm_text(v)}")
 
+    # ---------------- R01.2: the dimension order of a SHOC simple grid
+    with ctx.section('R01.2 ShocSimple coordinates'):
+        # CFGrid2DTopology reads the (y, x) dimensions of the face grid from latitude.dims as stored: the coordinates picked for a
+        # SHOC simple dataset have to lie on (j, i) in exactly that order, or a transposed look-alike found first turns the grid round
+        from .common import facts as _facts01
+        st_ = p.functions.get('emsarray.conventions.shoc.ShocSimple.topology')
+        ctx.need('R01.2', st_ is not None, "ShocSimple.topology exists", None)
+        sci = p.classes.get('emsarray.conventions.shoc.ShocSimple')
+        dims_attr = p.resolve_class_attr(sci, '_dimensions') if sci is not None else None
+        lit = dims_attr[1] if dims_attr is not None else None
+        ok = isinstance(lit, ast.Tuple) and [const_value(e, None) for e in lit.elts] == ['j', 'i']
+        ctx.check('R01.2', ok, "a SHOC simple grid is indexed (j, i): y first", st_, st_.node, construct=f"ShocSimple._dimensions = {norm_text(lit) if lit is not None else '?'}")
+        searches = [n for n in ast.walk(st_.node) if isinstance(n, ast.GeneratorExp) and len(n.generators) == 1
+                    and norm_text(n.generators[0].iter) in ('self.dataset.variables.items()', 'self.dataset.data_vars.items()', 'self.dataset.coords.items()')]
+        ctx.need('R01.2', len(searches) == 2, "ShocSimple.topology searches the dataset for its latitude and its longitude", st_)
+        for g_ in searches:
+            tgt = g_.generators[0].target
+            var = norm_text(tgt.elts[1]) if isinstance(tgt, ast.Tuple) and len(tgt.elts) == 2 else '?'
+            fs = _facts01(ctx, st_, g_.elt, expand=False)
+            ok = (f"{var}.dims == self._dimensions", True) in fs or (f"self._dimensions == {var}.dims", True) in fs or (f"{var}.dims == ('j', 'i')", True) in fs
+            ctx.check('R01.2', ok, "a coordinate of a SHOC simple grid is a variable on (j, i) in that order (the topology takes the grid's dimension order from the coordinate as stored)", st_, g_,
+                      construct=f"coordinate search under {sorted(t for t, pol in fs if pol)}"[:300])
+
     # ---------------- R01.4 / R01.6 per convention
     with ctx.section('R01.4 / R01.6 per convention'):
         seen = set()
